@@ -377,6 +377,7 @@ class HandshakeOpenFlowHandlers (OpenFlowHandlers):
     con.connect_time = time.time()
     con.handlers = _default_handlers.handlers
     con.ofnexus.raiseEventNoErrors(ConnectionHandshakeComplete, con)
+    if con.disconnected: return # A handler dropped the connection
 
     e = con.ofnexus.raiseEventNoErrors(ConnectionUp, con, con.features)
     if con.disconnected: return # A ConnectionUp handler dropped the connection
